@@ -34,7 +34,11 @@ fn run_event(cfg: &Cfg, base: usize, sg: &[usize; 4], pi: &[usize], out: &mut Ou
         let mut tally = vec![vec![0u64; n]; n];
         let mut patterns: BTreeMap<(u8, Vec<u8>), u64> = BTreeMap::new();
         let mut count = 0u64;
+        let cap = c.max_deals() as u64;
         for showdown in c.evaluator() {
+            if count > cap {
+                break;
+            }
             let wl = showdown.winner_len();
             let mut flags = vec![];
             for (player_index, player) in showdown.players().into_iter().enumerate() {
